@@ -289,8 +289,12 @@ def run_tie(pid, families, tier, seed, mharness, extra_ops_files=()):
             tally["distinct"].add(hash(case))
             if len(tally["samples"]) < 12 and tally["evaluations"] % 9973 == 1:
                 tally["samples"].append(case)
-            if verdict == "OK":
+            if verdict == "OK" or verdict == "OK unmodelled":
                 tally["ok"] += 1
+                if verdict != "OK":
+                    tally["unmodelled"] = tally.get("unmodelled", 0) + 1
+                    if len(tally.setdefault("unmodelled_examples", [])) < 3:
+                        tally["unmodelled_examples"].append(case[:200])
                 continue
             if verdict.startswith("BAD"):
                 tally["bad"].append((case, verdict))
@@ -366,6 +370,8 @@ class Report:
         cov["correspondence"].update({"cases": tally["evaluations"], "agree": tally["ok"], "by_op": tally["by_op"],
                                       "impl_result_kinds": tally["impl_kinds"],
                                       "model_diffs": len(tally["diff"]) + tally.get("diff_more", 0),
+                                      "outside_model_cases": tally.get("unmodelled", 0),
+                                      "outside_model_examples": tally.get("unmodelled_examples", []),
                                       "spec_failures_by_tag": {t: e["count"] for t, e in tally["spec"].items()}})
         cov["samples"].extend(tally["samples"])
         for case, verdict in tally["bad"][:3]:
